@@ -40,11 +40,15 @@ type z =
 | Zpos of positive
 | Zneg of positive
 
+val eqb : bool -> bool -> bool
+
 module Nat :
  sig
   val eqb : nat -> nat -> bool
 
   val leb : nat -> nat -> bool
+
+  val ltb : nat -> nat -> bool
  end
 
 module Pos :
@@ -155,23 +159,15 @@ module Z :
   val even : z -> bool
  end
 
-val hd : 'a1 -> 'a1 list -> 'a1
-
-val tl : 'a1 list -> 'a1 list
-
 val nth : nat -> 'a1 list -> 'a1 -> 'a1
 
-val last : 'a1 list -> 'a1 -> 'a1
+val nth_error : 'a1 list -> nat -> 'a1 option
 
 val rev : 'a1 list -> 'a1 list
 
-val concat : 'a1 list list -> 'a1 list
-
 val map : ('a1 -> 'a2) -> 'a1 list -> 'a2 list
 
-val flat_map : ('a1 -> 'a2 list) -> 'a1 list -> 'a2 list
-
-val fold_right : ('a2 -> 'a1 -> 'a1) -> 'a1 -> 'a2 list -> 'a1
+val fold_left : ('a1 -> 'a2 -> 'a1) -> 'a2 list -> 'a1 -> 'a1
 
 val existsb : ('a1 -> bool) -> 'a1 list -> bool
 
@@ -179,9 +175,7 @@ val forallb : ('a1 -> bool) -> 'a1 list -> bool
 
 val find : ('a1 -> bool) -> 'a1 list -> 'a1 option
 
-val list_prod : 'a1 list -> 'a2 list -> ('a1 * 'a2) list
-
-val skipn : nat -> 'a1 list -> 'a1 list
+val firstn : nat -> 'a1 list -> 'a1 list
 
 val repeat : 'a1 -> nat -> 'a1 list
 
@@ -216,7 +210,11 @@ val of_list : ('a1 -> sx) -> 'a1 list -> sx
 
 val of_LZ : z list -> sx
 
+val of_LLZ : z list list -> sx
+
 val of_pair : ('a1 -> sx) -> ('a2 -> sx) -> ('a1 * 'a2) -> sx
+
+val of_option : ('a1 -> sx) -> 'a1 option -> sx
 
 val sx_ok : sx -> sx
 
@@ -321,15 +319,231 @@ val run_choose : sx -> sx
 
 val run_round : sx -> sx
 
-val zinsert : z -> z list -> z list
-
-val zsort : z list -> z list
-
 val zmem : z -> z list -> bool
 
 val zassoc : z -> (z * 'a1) list -> 'a1 option
 
-val znodup_b : z list -> bool
+type rat0 = z * z
+
+val zero : rat0
+
+type 'a res =
+| Ok of 'a
+| Err of z
+
+val e_EMPTY : z
+
+val e_KEY : z
+
+val e_INDEX : z
+
+val e_TYPE : z
+
+val bind : 'a1 res -> ('a1 -> 'a2 res) -> 'a2 res
+
+val mapM : ('a1 -> 'a2 res) -> 'a1 list -> 'a2 list res
+
+type runners = { ru_assign : z list; ru_prob : rat0 list; ru_corr : rat0 list }
+
+type lvl = { l_assign : z; l_prob : rat0; l_corr : rat0; l_agg : rat0;
+             l_direct : bool; l_run : runners option }
+
+type cell = { c_id : z; c_levels : lvl list }
+
+type blob = cell list
+
+val index_of : z -> z list -> nat option
+
+type h5row = { w_assign : z; w_prob : rat0; w_agg : rat0; w_corr : rat0;
+               w_ra : z list; w_rp : rat0 list; w_rc : rat0 list }
+
+val write_runners :
+  z list -> z -> nat -> z list -> rat0 list -> rat0 list -> ((z list * rat0
+  list) * rat0 list) res
+
+val write_level : nat -> z list -> lvl -> h5row res
+
+val write_levels : nat -> z list list -> lvl list -> h5row list res
+
+val first_flags : nat -> blob -> bool list res
+
+type h5 = { h_direct : bool list; h_nodes : z list list; h_ids : z list;
+            h_rows : h5row list list; h_width : nat }
+
+val blob_to_hdf5 : z list list -> nat -> blob -> h5 res
+
+val py_nth : 'a1 list -> z -> 'a1 option
+
+val read_runners : z list -> z list -> rat0 list -> rat0 list -> runners res
+
+val read_level : nat -> z list -> bool -> h5row -> lvl res
+
+val read_levels :
+  nat -> z list list -> bool list -> h5row list -> lvl list res
+
+val read_cells :
+  nat -> z list list -> bool list -> z list -> h5row list list -> blob res
+
+val hdf5_to_blob : h5 -> blob res
+
+val runners_ok : nat -> z list -> runners -> bool
+
+val lvl_ok : nat -> z list -> lvl -> bool
+
+val levels_ok : nat -> z list list -> lvl list -> bool
+
+val cell_ok : nat -> z list list -> cell -> bool
+
+val flags_of : cell -> bool list
+
+val bools_eqb : bool list -> bool list -> bool
+
+val flags_uniform : blob -> bool
+
+val blob_ok : nat -> z list list -> blob -> bool
+
+val find_last : blob -> z -> cell option
+
+val re_order_blob : blob -> z list -> blob res
+
+type naming = { n_hmap : (z * z) list option;
+                n_tables : (z * (z * (z option * z option)) list) list option }
+
+val label_to_name : naming -> z -> z -> bool -> z
+
+val level_to_name : naming -> z -> z
+
+type colkey =
+| KId
+| KLabel of nat
+| KName of nat
+| KAlias of nat
+| KField of nat * nat
+| KRun of nat * nat * nat
+
+val colkey_eqb : colkey -> colkey -> bool
+
+val col_level : colkey -> nat option
+
+type dval =
+| DName of z
+| DNum of rat0
+| DBool of bool
+
+val enum_from : nat -> 'a1 list -> (nat * 'a1) list
+
+val level_elements : nat -> lvl -> (colkey * dval) list
+
+val level_record : naming -> bool -> nat -> z -> lvl -> (colkey * dval) list
+
+val levels_record :
+  naming -> nat -> z list -> lvl list -> (colkey * dval) list res
+
+val cell_record : naming -> z list -> cell -> (colkey * dval) list res
+
+val kmem : colkey -> colkey list -> bool
+
+val add_cols : colkey list -> colkey list -> colkey list
+
+val all_cols : (colkey * dval) list list -> colkey list
+
+val klookup : colkey -> (colkey * 'a1) list -> 'a1 option
+
+type frame = { f_cols : colkey list; f_rows : dval option list list }
+
+val blob_to_df : naming -> z list -> blob -> frame res
+
+val round_half_even0 : rat0 -> z
+
+val fmt4 : rat0 -> z
+
+type cval =
+| CName of z
+| CNum4 of z
+| CNumFull of rat0
+| CBool of bool
+| CEmpty
+
+val csv_cell : bool -> dval option -> cval
+
+val col_categ : bool list -> colkey -> bool
+
+val keep_col : nat -> bool list -> colkey -> bool
+
+type hline =
+| HMeta of z
+| HHier of z list
+| HReadable of z list
+| HVersion of nat
+
+val lz_eqb : z list -> z list -> bool
+
+val csv_header : naming -> z list -> z option -> nat -> hline list
+
+type csv = { v_comments : hline list; v_cols : colkey list;
+             v_rows : cval list list }
+
+val select : bool list -> 'a1 list -> 'a1 list
+
+val map2 : ('a1 -> 'a2 -> 'a3) -> 'a1 list -> 'a2 list -> 'a3 list
+
+val blob_to_csv :
+  naming -> z list -> z option -> nat -> nat -> bool list -> bool list ->
+  blob -> csv res
+
+val sx_rat0 : sx -> rat0 option
+
+val of_rat : rat0 -> sx
+
+val sx_Lrat : sx -> rat0 list option
+
+val sx_opt : (sx -> 'a1 option) -> sx -> 'a1 option option
+
+val sx_runners : sx -> runners option
+
+val sx_lvl : sx -> lvl option
+
+val sx_cell : sx -> cell option
+
+val sx_blob : sx -> blob option
+
+val of_runners : runners -> sx
+
+val of_lvl : lvl -> sx
+
+val of_cell : cell -> sx
+
+val of_blob : blob -> sx
+
+val of_res : ('a1 -> sx) -> 'a1 res -> sx
+
+val of_row : h5row -> sx
+
+val sx_row : sx -> h5row option
+
+val of_h5 : h5 -> sx
+
+val sx_h5 : sx -> h5 option
+
+val run_blob_to_hdf5 : sx -> sx
+
+val run_hdf5_to_blob : sx -> sx
+
+val run_roundtrip : sx -> sx
+
+val sx_naming : sx -> naming option
+
+val of_colkey : colkey -> sx
+
+val of_cval : cval -> sx
+
+val of_hline : hline -> sx
+
+val of_csv : csv -> sx
+
+val run_blob_to_csv : sx -> sx
+
+val run_re_order : sx -> sx
 
 type node = z
 
@@ -341,78 +555,7 @@ val nodes : level -> node list
 
 val children_of : level -> node -> z list
 
-val is_nil0 : 'a1 list -> bool
-
-val all_have_parent : level -> level -> bool
-
-val scan_children :
-  level -> node -> z list -> (z * z) list -> (z * z) list option
-
-val scan_parents : level -> level -> (z * z) list -> (z * z) list option
-
-val validate_pair : level -> level -> bool
-
-val validate_pairs : tree -> bool
-
-val leaf_level : tree -> level
-
-val leaf_rows : tree -> z list
-
-val validate0 : tree -> bool
-
-val parent_of : level -> node -> node option
-
-val ancestors : tree -> nat -> node -> (nat * node) list
-
-val all_parents_from : nat -> tree -> (nat * node) list
-
-val all_parents : tree -> (nat * node) option list
-
-val leaves_from : level list -> node -> node list
-
-val as_leaves : tree -> (node * node list) list list
-
-val combos2 : 'a1 list -> ('a1 * 'a1) list
-
-val order_pair : (z * z) -> z * z
-
-val leaf_pairs : tree -> (nat * node) option -> (node * node) list
-
-type 'a tres =
-| TOk of 'a
-| TErr of z
-
-val e_FLAT : z
-
-val e_NOLEVEL : z
-
-val e_LEAF : z
-
-val e_INVALID : z
-
-val remove_nth : nat -> 'a1 list -> 'a1 list
-
-val replace_nth : nat -> 'a1 -> 'a1 list -> 'a1 list
-
-val mk_tree : tree -> tree tres
-
-val drop_level_gen : tree -> nat -> bool -> tree tres
-
-val drop_level : tree -> nat -> tree tres
-
-val drop_leaf_level : tree -> tree tres
-
-val flatten : tree -> tree tres
-
 val drop_cells : tree -> tree
-
-val add_edge : level -> z -> z -> bool -> level
-
-val add_record : tree -> z list -> z -> tree
-
-val tree_of_records : nat -> z list list -> z -> tree -> tree
-
-val get_taxonomy_tree : nat -> z list list -> tree tres
 
 val set_eqb : z list -> z list -> bool
 
@@ -425,30 +568,6 @@ val sx_tree : sx -> tree option
 val of_level : level -> sx
 
 val of_tree : tree -> sx
-
-val sx_parent : sx -> (nat * node) option option
-
-val of_tres : ('a1 -> sx) -> 'a1 tres -> sx
-
-val of_pairsZ : (z * z) list -> sx
-
-val run_validate0 : sx -> sx
-
-val run_as_leaves : sx -> sx
-
-val run_leaf_pairs : sx -> sx
-
-val run_drop_level : sx -> sx
-
-val run_flatten : sx -> sx
-
-val run_drop_leaf : sx -> sx
-
-val run_ancestors : sx -> sx
-
-val run_from_records : sx -> sx
-
-val run_all_parents : sx -> sx
 
 val run_drop_cells : sx -> sx
 
